@@ -210,3 +210,25 @@ func tokenMutate(r *fw.Rand, src []byte, k int) []byte {
 	}
 	return []byte(strings.Join(pieces, ""))
 }
+
+// scanTokensSemi returns all tokens including comments and (auto-)semicolons.
+func scanTokensSemi(src []byte) []tokExt {
+	fset := token.NewFileSet()
+	file := fset.AddFile("a.xgo", -1, len(src))
+	var s scanner.Scanner
+	var out []tokExt
+	defer func() { recover() }()
+	s.Init(file, src, nil, scanner.ScanComments)
+	for n := 0; n < 2*len(src)+4; n++ {
+		pos, tok, lit := s.Scan()
+		if tok == token.EOF {
+			break
+		}
+		off := int(pos) - file.Base()
+		if tok == token.SEMICOLON {
+			lit = ""
+		}
+		out = append(out, tokExt{off, off, tok, lit})
+	}
+	return out
+}
